@@ -421,6 +421,10 @@ def shuffle_units(units):
     so that the global time budget of the quick tier cuts the cheapest-to-lose units"""
     r = random.Random(seed())
     units = list(units)
+    if os.environ.get('VERIF_ONLY_SHORT'):
+        # maintenance sweep: only the very short whole-string units (all lengths 0..4 in the thorough tier)
+        units = [u for u in units if isinstance(u, dict) and isinstance(u.get('L'), int) and u['L'] <= 4 and u.get('literal') is None
+                 and not u.get('repeat') and u.get('shape') not in ('list', 'tuple') and u.get('kind') != 'shapes']
     r.shuffle(units)
     units.sort(key=_prio)
     return units
